@@ -929,12 +929,12 @@ Definition delete_outcome (p : option pval) : outcome :=
       ends inside the 4 length bytes.  The allocation a reader requests is an explicit output. *)
 Inductive fstep := FFrame (len avail : N) (decodes : bool) | FShortLen.
 
-(* DiscretEndpoint::start_accepted: the ConnectionInfo frame on the event stream:
-   `let mut buf = vec![0; len];` comes before any check.  (delivered, bytes requested) *)
-Definition read_conn_info (f : fstep) : bool * N :=
+(* DiscretEndpoint::start_accepted: the ConnectionInfo frame on the event stream: since feffa39
+   `if len > max_buffer_size { return Err(..) }` comes before `vec![0; len]`.  (delivered, bytes requested) *)
+Definition read_conn_info (limit : N) (f : fstep) : bool * N :=
   match f with
   | FShortLen => (false, 0%N)
-  | FFrame len avail dec => (N.leb len avail && dec, len)
+  | FFrame len avail dec => if N.ltb limit len then (false, 0%N) else (N.leb len avail && dec, len)
   end.
 
 (* the reader loops of start_channels (answers, queries, events): `if len > max_buffer_size { break }`
@@ -956,7 +956,7 @@ Definition alloc_bound : N := 16777216.       (* what the oracle allows one inpu
 (* one connection: the ConnectionInfo frame, then the three streams.
    [info delivered; answers; queries; events delivered; a request beyond the bound was made] *)
 Definition connection_obs (info : fstep) (ans qs evs : list fstep) : list Z :=
-  let '(ok, a0) := read_conn_info info in
+  let '(ok, a0) := read_conn_info max_buffer_size info in
   if ok then
     let '(da, aa) := read_channel max_buffer_size ans in
     let '(dq, aq) := read_channel max_buffer_size qs in
@@ -964,22 +964,22 @@ Definition connection_obs (info : fstep) (ans qs evs : list fstep) : list Z :=
     [1; zn da; zn dq; zn de; zb (N.leb alloc_bound (N.max (N.max a0 aa) (N.max aq ae)))]
   else [0; 0; 0; 0; zb (N.leb alloc_bound a0)].
 
-(* a row ingested through add_nodes: refused without a write when its author has no right at its
-   date (rights exist from [rights_from] on); otherwise written, and on the writer thread the daily
-   log is marked with date_utils::date(mdate) = DateTime::from_timestamp_millis(mdate).unwrap() and,
-   when the log is next computed, read with date_next_day(that day) = day + 1 day.
+(* a row ingested through add_nodes: refused without a write when its date is one the calendar
+   cannot hold with its next day (date_utils::is_valid_date, since 8b3434e) or when its author has
+   no right at its date (rights exist from [rights_from] on); otherwise written, and the daily log
+   is marked and later computed on the writer thread with date / date_next_day, which are defined
+   for every date that passed the check.
    [outcome of add_nodes; does the writer answer after the next computation of the log] *)
-Definition max_calendar_ms : Z := 8210266876799999.      (* +262142-12-31T23:59:59.999Z *)
 Definition last_day_start_ms : Z := 8210266790400000.    (* +262142-12-31T00:00:00Z: its next day does not exist *)
-Inductive ingest_fate := IRefusedOrWritten | IWriterDiesAtCompute | IWriterDiesAtWrite.
+Definition first_day_ms : Z := -8334601228800000.        (* -262143-01-01T00:00:00Z *)
+Definition is_valid_date (ms : Z) : bool := Z.leb first_day_ms ms && Z.ltb ms last_day_start_ms.
+Inductive ingest_fate := IRefused | IWritten | IWriterDies.
 Definition ingest_fate_of (rights_from mdate : Z) : ingest_fate :=
-  if Z.ltb mdate rights_from then IRefusedOrWritten
-  else if Z.ltb mdate last_day_start_ms then IRefusedOrWritten
-  else if Z.leb mdate max_calendar_ms then IWriterDiesAtCompute
-  else IWriterDiesAtWrite.
+  if negb (is_valid_date mdate) then IRefused
+  else if Z.ltb mdate rights_from then IRefused
+  else IWritten.          (* date(mdate) and date_next_day(date(mdate)) exist: is_valid_date *)
 Definition ingest_obs (rights_from mdate : Z) : list Z :=
   match ingest_fate_of rights_from mdate with
-  | IRefusedOrWritten => [0; 1]
-  | IWriterDiesAtCompute => [0; 0]
-  | IWriterDiesAtWrite => [2; 0]
+  | IRefused | IWritten => [0; 1]
+  | IWriterDies => [2; 0]
   end.
